@@ -15,6 +15,9 @@ import (
 type c09Cmd struct {
 	Kind   string // devid | authcaps | chassis | raw | serfail | sl-authcaps | sl-guid
 	Script []string
+	// GiveUp: the caller's context ends while the last scripted (retryable)
+	// outcome is handled, so the call returns an error without a final answer
+	GiveUp bool
 }
 
 type c09Hist struct {
@@ -91,6 +94,11 @@ func c09Gen(tier string, seed int64) []ev.Case {
 	for i := 0; i < nRandom; i++ {
 		cs = append(cs, ev.MkCase("batch", c09Batch{Random: 150, Seed: seed*7 + int64(i)}))
 	}
+	gd := 3
+	if tier == "thorough" {
+		gd = 5
+	}
+	cs = append(cs, ev.MkCase("batch", c09Batch{H: -1, D: gd, Seed: seed}))
 	return cs
 }
 
@@ -120,9 +128,24 @@ func c09Exec(run *ev.Run, c ev.Case) {
 				if !strings.HasPrefix(k, "sl-") && r.Intn(12) == 0 {
 					sc = append(sc, "lost")
 				}
-				h.Cmds = append(h.Cmds, c09Cmd{Kind: k, Script: sc})
+				giveUp := len(sc) > 0 && sc[len(sc)-1] != "lost" && r.Intn(6) == 0
+				h.Cmds = append(h.Cmds, c09Cmd{Kind: k, Script: sc, GiveUp: giveUp})
 			}
 			c09History(run, h)
+			return
+		}
+		if b.H == -1 {
+			// give-up histories: every sequence of 1..D retryable outcomes after which the context ends
+			kinds := []string{"devid", "authcaps", "chassis", "raw"}
+			idx := 0
+			for _, sc := range c09Scripts(b.D) {
+				if len(sc) == 0 || sc[len(sc)-1] == "lost" {
+					continue
+				}
+				idx++
+				c09History(run, c09Hist{Suite: idx % 9, Cmds: []c09Cmd{{Kind: kinds[idx%4], Script: sc[:len(sc)/2]}, {Kind: kinds[(idx+1)%4], Script: sc, GiveUp: true},
+					{Kind: kinds[(idx+2)%4]}, {Kind: kinds[(idx+3)%4], Script: []string{"busy"}}}})
+			}
 			return
 		}
 		scripts := c09Scripts(b.D)
@@ -194,12 +217,16 @@ func c09History(run *ev.Run, h c09Hist) {
 	sig := ""
 	for ci, cmd := range h.Cmds {
 		call, okBody, minBody := c09Call(cmd.Kind, sess, se.ST)
-		res := se.Run(cmd.Script, okBody, minBody, 0, len(cmd.Script)+4, call)
+		cancelAt := 0
+		if cmd.GiveUp && len(cmd.Script) > 0 {
+			cancelAt = len(cmd.Script)
+		}
+		res := se.Run(cmd.Script, okBody, minBody, cancelAt, len(cmd.Script)+4, call)
 		if res.Panic != nil {
 			run.Violation("C09:panic:"+panicSite(res.Stack), fmt.Sprintf("command %d (%s, script %v) panicked: %v\n%s", ci, cmd.Kind, cmd.Script, res.Panic, trimStack(res.Stack)), cs, nil)
 			return
 		}
-		sig += cmd.Kind[:2] + strings.Join(cmd.Script, ",") + ";"
+		sig += cmd.Kind[:2] + strings.Join(cmd.Script, ",") + fmt.Sprint(cmd.GiveUp) + ";"
 		if len(res.Sends) != 1 {
 			nontrivial = true
 		}
